@@ -8,9 +8,11 @@ def find_op(w, crate, op, self_key, rhs_key):
     return [(o, s, r, out, imp) for (o, s, r, out, imp) in w.U.op_impls(crate) if o == op and s == self_key and r == rhs_key]
 
 
-def body_form(ctx, rule, inst, U, imp, fn, want, where=None, inline=()):
+def body_form(ctx, rule, inst, U, imp, fn, want, where=None, inline=(), record=None):
     """The impl method's body must be the single unconditional value `want`
-    (exact tree modulo commutativity; R(..) parts as rational functions)."""
+    (exact tree modulo commutativity; R(..) parts as rational functions).
+    `record`: the quantity type whose new / amount / unit may equally be spelled through its fields (a body that works
+    on `self.amount` directly is then compared in the type's own record form)."""
     b = U.item_body(imp, fn)
     if b is None:
         ctx.fail(rule, inst, "no body for %s" % fn, imp["span"])
@@ -23,8 +25,61 @@ def body_form(ctx, rule, inst, U, imp, fn, want, where=None, inline=()):
         return False
     obs = "; ".join("[%s] %s %s" % (T.show_guard(g), k, T.show(T.canon(t))) for g, k, t in outs)
     ok = len(outs) == 1 and not outs[0][0] and outs[0][1] == "val" and S.match(T.canon(outs[0][2]), want) is None
-    ctx.ob(rule, inst, ok, "body is %s, expected %s" % (obs, T.show(S.strip_R(want))), b["span"])
+    if not ok and len(outs) > 1:
+        # several cases (a fast path): every case must produce the expected value; an equality with a constant that
+        # guards a case may be used in it (x / 1 = x exactly)
+        try:
+            ok = not list(S.compare_cases([(g, k, T.canon(t)) for g, k, t in outs], [], lambda val: ("val", want)))
+        except T.Unsupported:
+            ok = False
+    if not ok and record is not None and len(outs) == 1 and not outs[0][0] and outs[0][1] == "val":
+        from . import ovequiv
+        try:
+            view = ovequiv.TypeView(U, record)
+            ok = S.match(T.canon(T.untag(view.concretise(T.canon(outs[0][2])))), T.canon(T.untag(view.concretise(S.strip_R(want))))) is None
+        except (ovequiv.NotEquivalent, T.Unsupported):
+            ok = False
+    why = ""
+    if not ok and want[0] == "app" and want[1].split("::")[0] in ("HasRefUnit", "Quantity") and len(b["params"]) == len(want[3]):
+        # not the plain forwarding call: the body may still compute, case by case, what that default method computes
+        # (e.g. a fast path in front of the call) — both are expanded to primitive operations and compared over the
+        # truth table of their guards; equalities with constants that hold in a case may be used on both sides
+        r = same_as_default(U, imp, b, want)
+        if r is True:
+            ok = True
+        else:
+            why = " — and it is not shown to compute what that call computes (%s)" % r
+    ctx.ob(rule, inst, ok, "body is %s, expected %s%s" % (obs, T.show(S.strip_R(want)), why), b["span"])
     return ok
+
+
+def same_as_default(U, imp, b, want):
+    from . import generic as G
+    trait, name = want[1].split("::")
+    db = U.get_body({"HasRefUnit": G.HRU, "Quantity": G.QTY}[trait] + name)
+    if db is None:
+        return "no default body"
+    args = list(want[3])
+    try:
+        ev = T.Evaluator(U, keep_tags=True, inline={"*"}, stop=set())
+        outs = [(g, k, T.canon(t)) for (g, k, t) in ev.summarize(b, args=args)]
+        ev2 = T.Evaluator(U, keep_tags=True, inline={"*"}, stop=set())
+        ev2.tysubst.append({"Self": imp["self_ty"]})
+        wouts = [(g, k, T.canon(t)) for (g, k, t) in ev2.summarize(db, args=args)]
+    except T.Unsupported as x:
+        return "outside the analysed fragment: %s" % x.what
+    watoms = T.guard_atoms(wouts)
+
+    def spec(val):
+        hit = [(k, t) for (g, k, t) in wouts if all(val(a) == p for a, p in g)]
+        if len(hit) != 1:
+            return None
+        return (hit[0][0], hit[0][1] if hit[0][0] == "val" else None)
+    try:
+        probs = list(S.compare_cases(outs, watoms, spec))
+    except T.Unsupported as x:
+        return "outside the analysed fragment: %s" % x.what
+    return True if not probs else probs[0][1][:300]
 
 
 ASSIGN_OPS = {"core::ops::arith::AddAssign": ("core::ops::arith::Add", "add_assign"),
@@ -76,6 +131,66 @@ def assign_ops(ctx, rule, config, w, q):
                         target_ok = tys[:1] == [q.path] and (len(tys) < 2 or tys[1].lstrip("&") == rhs_ty.lstrip("&")) and res.get("impl_crate_local", True)
                         ok = a0_ok and a1_ok and target_ok
                         why = "assigns %s::%s(%s) — expected the type's own operator applied to (*self, rhs)" % (op_trait.rsplit("::", 1)[1], r["fn"]["name"], tys)
+            if not ok and b is not None:
+                # the other direction (the binary operator built on the compound assignment, or both written out):
+                # the value left in `*self` must be what the checked binary operator returns, case by case
+                sem = assign_equals_operator(w, q, imp, b, op_trait, rhs_ty)
+                if sem is True:
+                    ok = True
+                else:
+                    why += "; and the value it leaves in *self is not what `self %s rhs` returns (%s)" % (op_trait.rsplit("::", 1)[1].lower(), sem)
             ctx.ob(rule, inst, ok, "compound assignment is not defined through the checked operator: %s" % why, (b or imp)["span"], nontrivial=False)
             n += 1
     return n
+
+
+def assign_equals_operator(w, q, imp, body, op_trait, rhs_ty):
+    """True, or the reason why the final `*self` of the compound assignment is not shown equal to the result of the
+    type's binary operator with the same right-hand type (both summarised with calls between the two looked through,
+    compared in the type's record form over the truth table of their guards)."""
+    from . import ovequiv
+    U = w.U
+    sym = {"core::ops::arith::Add": "+", "core::ops::arith::Sub": "-", "core::ops::arith::Mul": "*", "core::ops::arith::Div": "/",
+           "core::ops::arith::Rem": "%"}.get(op_trait)
+    cands = [(o, s_, r_, out, i2) for (o, s_, r_, out, i2) in U.op_impls(q.crate) if o == sym and s_ == q.path and r_ == rhs_ty]
+    if len(cands) != 1:
+        return "no unique `%s %s %s`" % (q.path, sym, rhs_ty)
+    bimp = cands[0][4]
+    bb = U.item_body(bimp, OPFN[sym])
+    if bb is None or len(bb["params"]) != 2 or len(body["params"]) != 2:
+        return "no comparable bodies"
+    pj = body["params"][0].get("pat")
+    if not pj or pj.get("k") != "bind":
+        return "receiver pattern"
+    a, r = S.P(0, "self"), S.P(1, "rhs")
+    it_b = U.impl_item(bimp, OPFN[sym])
+    inl = {it_b["path"] + "!"} if it_b else set()
+    try:
+        ev1 = T.Evaluator(U, keep_tags=False, inline=inl)
+        env = {}
+        for pp, t in zip(body["params"], (a, r)):
+            if "pat" in pp:
+                ev1.bind(pp["pat"], t, env, body)
+        outs_a = []
+        for (g, kind, t, e2) in ev1.ev(body["value"], T.State((), env), 0, body):
+            outs_a.append((g, "val", e2[pj["id"]]) if kind in ("val", "ret") else (g, kind, t))
+        outs_b = T.Evaluator(U, keep_tags=False).summarize(bb, args=[a, r])
+        view = ovequiv.TypeView(U, q)
+    except (T.Unsupported, ovequiv.NotEquivalent) as x:
+        return "outside the analysed fragment: %s" % getattr(x, "what", x)
+    norm = lambda outs: [(tuple((T.canon(view.concretise(T.canon(at))), p) for at, p in g), k,
+                          T.canon(view.concretise(T.canon(t))) if k == "val" else None) for (g, k, t) in outs]
+    na, nb = norm(outs_a), norm(outs_b)
+    try:
+        atoms = T.guard_atoms(na + nb)
+        for asg in T.assignments(atoms):
+            sa, sb = T.select(na, asg), T.select(nb, asg)
+            if len(sa) != 1 or len(sb) != 1:
+                return "%d / %d outcomes in a case" % (len(sa), len(sb))
+            if sa[0][0] != sb[0][0]:
+                return "the assignment %ss where the operator %ss" % (sa[0][0], sb[0][0])
+            if sa[0][0] == "val" and S.match(sa[0][1], sb[0][1]) is not None:
+                return "*self becomes %s, the operator returns %s" % (T.show(sa[0][1]), T.show(sb[0][1]))
+    except T.Unsupported as x:
+        return "outside the analysed fragment: %s" % x.what
+    return True
